@@ -58,3 +58,11 @@ def rev_strs(xs: Seq[Str]) -> Seq[Str]:
     if len(xs) == 0:
         return xs
     return [xs[-1]] + rev_strs(xs[:-1])
+
+
+@spec
+def uc_rows(ks: Seq[RecV], offered: Seq[RecV], n: Int) -> Seq[RecV]:
+    # DISTINCT COUNT output for the first n distinct records: each once, prefixed by its multiplicity
+    if n <= 0:
+        return []
+    return uc_rows(ks, offered, n - 1) + [[count_in(offered, ks[n - 1])] + ks[n - 1]]
